@@ -102,7 +102,7 @@ func VerifSSErrClass(err error) (cls int, code int64) {
 		}
 		return 1, int64(se.ErrorCode)
 	}
-	if errors.Is(err, errVerifShutdown) {
+	if errors.Is(err, errVerifShutdownSS) {
 		return 3, 0
 	}
 	if errors.Is(err, errDeadline) {
@@ -111,14 +111,14 @@ func VerifSSErrClass(err error) (cls int, code int64) {
 	return 4, 0
 }
 
-var errVerifShutdown = errors.New("verif: shutdown")
+var errVerifShutdownSS = errors.New("verif: shutdown")
 
 func (v *VerifSendStream) Write(p []byte) (int, error) { return v.S.Write(p) }
 func (v *VerifSendStream) Close() error                { return v.S.Close() }
 func (v *VerifSendStream) CancelWrite(code int64)      { v.S.CancelWrite(StreamErrorCode(code)) }
 func (v *VerifSendStream) SetReliableBoundary()        { v.S.SetReliableBoundary() }
 func (v *VerifSendStream) EnableResetStreamAt()        { v.S.enableResetStreamAt() }
-func (v *VerifSendStream) Shutdown()                   { v.S.closeForShutdown(errVerifShutdown) }
+func (v *VerifSendStream) Shutdown()                   { v.S.closeForShutdown(errVerifShutdownSS) }
 func (v *VerifSendStream) StopSending(code int64) {
 	v.S.handleStopSendingFrame(&wire.StopSendingFrame{StreamID: v.S.streamID, ErrorCode: StreamErrorCode(code)})
 }
